@@ -196,3 +196,42 @@ func VH_C04_Reconnect() {
 		vAgree(hs2, want)
 	}
 }
+
+// VH_C04_LargeTwice: two pairings in one process, each with an auth payload
+// of several transport records (70000 bytes, different contents). After the
+// second handshake has completed, the first initiator still holds exactly the
+// payload its responder sent - whatever buffers the implementation recycles
+// between handshakes, a payload that was handed out is not touched again.
+// (All four Machines are built before the first handshake runs: building one
+// stretches the passphrase and ends in debug.FreeOSMemory(), i.e. a forced
+// collection, which would empty any sync.Pool between the two handshakes of
+// a native replay.)
+func VH_C04_LargeTwice() {
+	vSingleP()
+	var hss [2]*vHS
+	var auths [2][]byte
+	for i := range hss {
+		cfg := &vHSConfig{cMin: 0, cMax: 2, sMin: 0, sMax: 2}
+		cfg.cliPW, cfg.srvPW = vSamePW()
+		auths[i] = vStream("auth", vParam("authlen", 70000))
+		cfg.auth = auths[i]
+		hs, ok := vSetup(cfg)
+		vAssert(ok, "machine construction failed")
+		hss[i] = hs
+	}
+	for i, hs := range hss {
+		vRunHandshake(hs)
+		vAssert(hs.cli.err == nil && hs.srv.err == nil, "a valid handshake with a large auth payload failed")
+		if hs.cli.err != nil || hs.srv.err != nil {
+			return
+		}
+		vAgree(hs, auths[i])
+	}
+	vReach("large-twice")
+	got := hss[0].cli.m.receivedPayload
+	vAssert(len(got) == len(auths[0]), "the first initiator's auth payload changed its length after a later handshake")
+	j := vInt("j")
+	if j >= 0 && j < len(got) && j < len(auths[0]) {
+		vAssert(got[j] == auths[0][j], "the first initiator's auth payload was overwritten by a later handshake (recycled buffer)")
+	}
+}
